@@ -906,7 +906,7 @@ def const_str(o):
 # decision tables and symbolic inlining
 
 
-def decision_paths(body, max_paths=4000, start=0, stop=None):
+def decision_paths(body, max_paths=4000, start=0, stop=None, trace=False):
     """Path-sensitive symbolic walk: enumerate acyclic paths entry -> return, executing assignments symbolically.
     Each result: (conds, ret_expr, last_bb) where conds is a list of (discr_expr, value) for every SwitchInt taken
     (value = matched int or ('otherwise', (v1, v2, ..))) and ret_expr the value of _0 on that path. Paths ending in
@@ -966,10 +966,11 @@ def decision_paths(body, max_paths=4000, start=0, stop=None):
             return ("agg", tag, tuple(operand(env, x) for x in rv["ops"]))
         return ("rv", k)
 
-    def rec(bb, conds, seen, env):
+    def rec(bb, conds, seen, env, trail=()):
         if len(out) >= max_paths:
             return
         env = dict(env)
+        trail = trail + (bb,) if trace else trail
         for s in body.blocks[bb]["stmts"]:
             if s["k"] == "assign":
                 if not s["lhs"].get("p"):
@@ -991,7 +992,8 @@ def decision_paths(body, max_paths=4000, start=0, stop=None):
             out.append((list(conds), (env, lambda o, env=env: operand(env, o)), bb))
             return
         if k == "return":
-            out.append((list(conds), env.get(0, ("tmp", 0)), bb))
+            if stop is None:
+                out.append((list(conds), env.get(0, ("tmp", 0)), trail if trace else bb))
             return
         if k == "call":
             f = t["func"]
@@ -1006,22 +1008,23 @@ def decision_paths(body, max_paths=4000, start=0, stop=None):
                 tgs = [tg for v, tg in t["targets"] if v == int(e[1])]
                 tg = tgs[0] if tgs else t["otherwise"]
                 if tg not in seen:
-                    rec(tg, conds, seen | {tg}, env)
+                    rec(tg, conds, seen | {tg}, env, trail)
                 return
             for v, tg in t["targets"]:
                 if tg not in seen:
-                    rec(tg, conds + [(e, v)], seen | {tg}, env)
+                    rec(tg, conds + [(e, v)], seen | {tg}, env, trail)
             tg = t["otherwise"]
             if tg not in seen and body.blocks[tg]["term"]["k"] != "unreachable":
-                rec(tg, conds + [(e, ("otherwise", vals))], seen | {tg}, env)
+                rec(tg, conds + [(e, ("otherwise", vals))], seen | {tg}, env, trail)
             return
         nx = body.succ(bb)
         if not nx:
-            out.append((list(conds), None, bb))
+            if stop is None:
+                out.append((list(conds), None, bb))
             return
         for sx in nx:
             if sx not in seen:
-                rec(sx, conds, seen | {sx}, env)
+                rec(sx, conds, seen | {sx}, env, trail)
 
     rec(start, [], {start}, {})
     return out
